@@ -126,7 +126,8 @@ type streamPlan struct {
 	Fixed    int  `json:"fixed,omitempty"`
 	Zero     int  `json:"zero,omitempty"`
 	WithData bool `json:"with_data,omitempty"`
-	ErrAt    int  `json:"err_at"` // -1: clean EOF
+	ErrAt    int  `json:"err_at"`             // -1: clean EOF
+	ErrKind  int  `json:"err_kind,omitempty"` // io.WriterTo sources only: the error value WriteTo fails with: 0 private, 1 io.EOF, 2 wraps io.EOF
 	Closer   bool `json:"closer,omitempty"`
 }
 
@@ -214,6 +215,7 @@ func (sh streamShape) plan(t *kernel.Tape, n int, small bool) streamPlan {
 	}
 	if sh.readErr {
 		s.ErrAt = t.Choose(n+1, "err-off")
+		s.ErrKind = t.Weighted("writeto-error-value", 3, 1, 1)
 	}
 	return s
 }
@@ -887,7 +889,7 @@ func (c *run) produce(sp *srcPlan, name string, text []byte, table [][]string) *
 		mustErr = bm.fail
 		src = bm
 	case srcWriterTo:
-		wt = &writerTo{env: env, name: name + "-writerto", data: text, chunkMode: sp.In.Chunk, fixed: sp.In.Fixed, errAt: sp.In.ErrAt}
+		wt = &writerTo{env: env, name: name + "-writerto", data: text, chunkMode: sp.In.Chunk, fixed: sp.In.Fixed, errAt: sp.In.ErrAt, errKind: sp.In.ErrKind}
 		if wt.errAt > len(text) {
 			wt.errAt = len(text)
 		}
